@@ -309,6 +309,97 @@ Definition sp_splice (c : cfg) (st : astate) (nx : N) (v : nat) (sb eb : bound) 
     end
   end.
 
+(** ** read-only iteration: iter / iter_mut, typed and erased, cloned iterators, nth / nth_back *)
+
+(** the calls [true] = next(), [false] = next_back() on the cursor [i, j): per call the flag, the value and
+    the size hint after the call *)
+Fixpoint sp_walk_ro (xs : list N) (pat : list bool) (i j : nat) : list N :=
+  match pat with
+  | [] => []
+  | front :: rest =>
+      if (i =? j)%nat then 0 :: 0 :: N.of_nat (j - i) :: sp_walk_ro xs rest i j
+      else
+        let idx := if front then i else (j - 1)%nat in
+        let i1 := if front then S i else i in
+        let j1 := if front then j else (j - 1)%nat in
+        1 :: nth idx xs 0 :: N.of_nat (j1 - i1) :: sp_walk_ro xs rest i1 j1
+  end.
+(** where the cursor stands after the calls *)
+Fixpoint sp_adv (pat : list bool) (i j : nat) : nat * nat :=
+  match pat with
+  | [] => (i, j)
+  | front :: rest =>
+      if (i =? j)%nat then sp_adv rest i j
+      else sp_adv rest (if front then S i else i) (if front then j else (j - 1)%nat)
+  end.
+(** [(true, n)] = nth(n), [(false, n)] = nth_back(n): the n-th element from that end of what is left,
+    consuming n + 1; [None] - and the iterator is exhausted - when fewer are left *)
+Fixpoint sp_walk_nth (xs : list N) (pat : list (bool * N)) (i j : nat) : list N :=
+  match pat with
+  | [] => []
+  | (front, n) :: rest =>
+      if n <? N.of_nat (j - i) then
+        let k := N.to_nat n in
+        let idx := if front then (i + k)%nat else (j - 1 - k)%nat in
+        let i1 := if front then (i + k + 1)%nat else i in
+        let j1 := if front then j else (j - 1 - k)%nat in
+        1 :: nth idx xs 0 :: N.of_nat (j1 - i1) :: sp_walk_nth xs rest i1 j1
+      else
+        let p := if front then j else i in
+        0 :: 0 :: 0 :: sp_walk_nth xs rest p p
+  end.
+
+(** operations that only look *)
+Definition sp_look (c : cfg) (st : astate) (nx : N) (o : op) : option sres :=
+  match o with
+  | OIter _ v pat =>
+      match get_a v st with
+      | Some a => let xs := a_xs a in
+                  Some (ok_res (N.of_nat (length xs) :: sp_walk_ro xs pat 0 (length xs)) [] st nx)
+      | None => None
+      end
+  | OIterNth _ v pat =>
+      match get_a v st with
+      | Some a => let xs := a_xs a in
+                  Some (ok_res (N.of_nat (length xs) :: sp_walk_nth xs pat 0 (length xs)) [] st nx)
+      | None => None
+      end
+  | OIterClone _ v pat1 pat2 =>
+      (* an iterator and its clone continue independently from the same position *)
+      match get_a v st with
+      | Some a => let xs := a_xs a in
+                  let '(i, j) := sp_adv pat1 0 (length xs) in
+                  let rest := N.of_nat (j - i) :: sp_walk_ro xs pat2 i j in
+                  Some (ok_res (N.of_nat (length xs) :: sp_walk_ro xs pat1 0 (length xs) ++ rest ++ rest) [] st nx)
+      | None => None
+      end
+  | ORead _ v idx =>
+      (* get(idx) through an element handle: the value, that its type is the element type, its size *)
+      match get_a v st with
+      | Some a => if idx <? N.of_nat (length (a_xs a))
+                  then Some (ok_res [nth (N.to_nat idx) (a_xs a) 0; 1; c_sz c] [] st nx)
+                  else Some (none_res st nx)
+      | None => None
+      end
+  | OProbeTypes v idx =>
+      (* downcasts succeed for the element type and for no other; reported type and layout *)
+      match get_a v st with
+      | Some a => let head := [1; 0; 1; 0; 1; c_sz c; c_al c] in
+                  Some (ok_res (if idx <? N.of_nat (length (a_xs a)) then head ++ [1; c_sz c; 1; 0; 1; 0; 1; 0] else head) [] st nx)
+      | None => None
+      end
+  | OSwapWrong v idx =>
+      (* swapping an element with a value of another type is refused; that value is destroyed *)
+      match get_a v st with
+      | Some a => if idx <? N.of_nat (length (a_xs a))
+                  then Some (panic_res PType (drop_ev c (tok c nx)) st (nx + 1))
+                  else Some (panic_res PIndex [] st nx)
+      | None => None
+      end
+  | OPlacement => Some (ok_res [0] [] st nx)
+  | _ => None
+  end.
+
 (** the fragment: by-value or boxed replacement values, all of the right type, honest size hint *)
 Lemma sp_splice_inv c st nx v sb eb pat f rk n wrong_at claimed r :
   sp_splice c st nx v sb eb pat f rk n wrong_at claimed = Some r ->
@@ -369,6 +460,7 @@ Definition spec_step (c : cfg) (st : astate) (nx : N) (o : op) : option sres :=
   | OReserveExact v n => sp_capacity c st nx v (Some n) true
   | OShrinkToFit v => sp_capacity c st nx v None false
   | OShrinkTo v _ => sp_capacity c st nx v None false
+  | OIter _ _ _ | OIterNth _ _ _ | OIterClone _ _ _ _ | ORead _ _ _ | OProbeTypes _ _ | OSwapWrong _ _ | OPlacement => sp_look c st nx o
   | _ => None
   end.
 
